@@ -392,6 +392,7 @@ fn blanks(input: Span) -> IResult<Span, ()> {
     V("seed-C16-r2-m3-encoder-fast-path", [("@patch", "seeded/C16-r2-m3/patch.diff")], {"C16": "ENC:regex::escape_dot_string"}),
     V("seed-C14-r2-m2-duplicate-check-before-filter", [("@patch", "seeded/C14-r2-m2/patch.diff")], {"C14": "GUARD:check::ValidGrammar::from_grammar:DuplicateNonterminalDefinition"}),
     V("seed-C15-r2-m2-underscore-prefix-no-c10-alarm", [("@patch", "seeded/C15-r2-m2/patch.diff")], {"C15": "WARN:main::aot:only-underscore-exempt", "C10": None}),
+    V("seed-C17-r2-m3-sort-loses-numeric", [("@patch", "seeded/C17-r2-m3/patch.diff")], {"C17": "SK-CANDORD"}),
     # ---------------- C10
     V("c10-std-hashset-in-dfa", [("src/dfa.rs", "use hashbrown::{HashMap, HashSet};", "use hashbrown::HashMap;\nuse std::collections::HashSet;")], {"C10": "HASHORD:dfa::dfa_from_regex"}),
     V("c10-env-var", [("src/lib.rs", '    let version = env!("COMPLGEN_VERSION");', '    let version = std::env::var("COMPLGEN_VERSION").unwrap_or_default();')], {"C10": "AMBIENT:signature"}),
